@@ -75,54 +75,57 @@ Record tparams := mkTP {
   tp_mdfs : Z;      (* MaxDatagramFrameSize, -1 = InvalidByteCount *)
   tp_rsa : bool;    (* EnableResetStreamAt *)
   tp_minad : option Z; (* MinAckDelay, ns *)
-  tp_override : option (list Z) (* [uQUIC] ClientOverride *) }.
+  tp_override : option (list Z); (* [uQUIC] ClientOverride *)
+  tp_amit : Z       (* AdvertisedMaxIdleTimeout, ns: max_idle_timeout exactly as the peer sent it (receive side only) *) }.
 
 Definition set_imsd_bl v (p : tparams) : tparams :=
-  mkTP v (tp_imsd_br p) (tp_imsd_uni p) (tp_imd p) (tp_mad p) (tp_ade p) (tp_dam p) (tp_mups p) (tp_mus p) (tp_mbs p) (tp_mit p) (tp_pa p) (tp_odcid p) (tp_iscid p) (tp_rscid p) (tp_srt p) (tp_acil p) (tp_mdfs p) (tp_rsa p) (tp_minad p) (tp_override p).
+  mkTP v (tp_imsd_br p) (tp_imsd_uni p) (tp_imd p) (tp_mad p) (tp_ade p) (tp_dam p) (tp_mups p) (tp_mus p) (tp_mbs p) (tp_mit p) (tp_pa p) (tp_odcid p) (tp_iscid p) (tp_rscid p) (tp_srt p) (tp_acil p) (tp_mdfs p) (tp_rsa p) (tp_minad p) (tp_override p) (tp_amit p).
 Definition set_imsd_br v (p : tparams) : tparams :=
-  mkTP (tp_imsd_bl p) v (tp_imsd_uni p) (tp_imd p) (tp_mad p) (tp_ade p) (tp_dam p) (tp_mups p) (tp_mus p) (tp_mbs p) (tp_mit p) (tp_pa p) (tp_odcid p) (tp_iscid p) (tp_rscid p) (tp_srt p) (tp_acil p) (tp_mdfs p) (tp_rsa p) (tp_minad p) (tp_override p).
+  mkTP (tp_imsd_bl p) v (tp_imsd_uni p) (tp_imd p) (tp_mad p) (tp_ade p) (tp_dam p) (tp_mups p) (tp_mus p) (tp_mbs p) (tp_mit p) (tp_pa p) (tp_odcid p) (tp_iscid p) (tp_rscid p) (tp_srt p) (tp_acil p) (tp_mdfs p) (tp_rsa p) (tp_minad p) (tp_override p) (tp_amit p).
 Definition set_imsd_uni v (p : tparams) : tparams :=
-  mkTP (tp_imsd_bl p) (tp_imsd_br p) v (tp_imd p) (tp_mad p) (tp_ade p) (tp_dam p) (tp_mups p) (tp_mus p) (tp_mbs p) (tp_mit p) (tp_pa p) (tp_odcid p) (tp_iscid p) (tp_rscid p) (tp_srt p) (tp_acil p) (tp_mdfs p) (tp_rsa p) (tp_minad p) (tp_override p).
+  mkTP (tp_imsd_bl p) (tp_imsd_br p) v (tp_imd p) (tp_mad p) (tp_ade p) (tp_dam p) (tp_mups p) (tp_mus p) (tp_mbs p) (tp_mit p) (tp_pa p) (tp_odcid p) (tp_iscid p) (tp_rscid p) (tp_srt p) (tp_acil p) (tp_mdfs p) (tp_rsa p) (tp_minad p) (tp_override p) (tp_amit p).
 Definition set_imd v (p : tparams) : tparams :=
-  mkTP (tp_imsd_bl p) (tp_imsd_br p) (tp_imsd_uni p) v (tp_mad p) (tp_ade p) (tp_dam p) (tp_mups p) (tp_mus p) (tp_mbs p) (tp_mit p) (tp_pa p) (tp_odcid p) (tp_iscid p) (tp_rscid p) (tp_srt p) (tp_acil p) (tp_mdfs p) (tp_rsa p) (tp_minad p) (tp_override p).
+  mkTP (tp_imsd_bl p) (tp_imsd_br p) (tp_imsd_uni p) v (tp_mad p) (tp_ade p) (tp_dam p) (tp_mups p) (tp_mus p) (tp_mbs p) (tp_mit p) (tp_pa p) (tp_odcid p) (tp_iscid p) (tp_rscid p) (tp_srt p) (tp_acil p) (tp_mdfs p) (tp_rsa p) (tp_minad p) (tp_override p) (tp_amit p).
 Definition set_mad v (p : tparams) : tparams :=
-  mkTP (tp_imsd_bl p) (tp_imsd_br p) (tp_imsd_uni p) (tp_imd p) v (tp_ade p) (tp_dam p) (tp_mups p) (tp_mus p) (tp_mbs p) (tp_mit p) (tp_pa p) (tp_odcid p) (tp_iscid p) (tp_rscid p) (tp_srt p) (tp_acil p) (tp_mdfs p) (tp_rsa p) (tp_minad p) (tp_override p).
+  mkTP (tp_imsd_bl p) (tp_imsd_br p) (tp_imsd_uni p) (tp_imd p) v (tp_ade p) (tp_dam p) (tp_mups p) (tp_mus p) (tp_mbs p) (tp_mit p) (tp_pa p) (tp_odcid p) (tp_iscid p) (tp_rscid p) (tp_srt p) (tp_acil p) (tp_mdfs p) (tp_rsa p) (tp_minad p) (tp_override p) (tp_amit p).
 Definition set_ade v (p : tparams) : tparams :=
-  mkTP (tp_imsd_bl p) (tp_imsd_br p) (tp_imsd_uni p) (tp_imd p) (tp_mad p) v (tp_dam p) (tp_mups p) (tp_mus p) (tp_mbs p) (tp_mit p) (tp_pa p) (tp_odcid p) (tp_iscid p) (tp_rscid p) (tp_srt p) (tp_acil p) (tp_mdfs p) (tp_rsa p) (tp_minad p) (tp_override p).
+  mkTP (tp_imsd_bl p) (tp_imsd_br p) (tp_imsd_uni p) (tp_imd p) (tp_mad p) v (tp_dam p) (tp_mups p) (tp_mus p) (tp_mbs p) (tp_mit p) (tp_pa p) (tp_odcid p) (tp_iscid p) (tp_rscid p) (tp_srt p) (tp_acil p) (tp_mdfs p) (tp_rsa p) (tp_minad p) (tp_override p) (tp_amit p).
 Definition set_dam v (p : tparams) : tparams :=
-  mkTP (tp_imsd_bl p) (tp_imsd_br p) (tp_imsd_uni p) (tp_imd p) (tp_mad p) (tp_ade p) v (tp_mups p) (tp_mus p) (tp_mbs p) (tp_mit p) (tp_pa p) (tp_odcid p) (tp_iscid p) (tp_rscid p) (tp_srt p) (tp_acil p) (tp_mdfs p) (tp_rsa p) (tp_minad p) (tp_override p).
+  mkTP (tp_imsd_bl p) (tp_imsd_br p) (tp_imsd_uni p) (tp_imd p) (tp_mad p) (tp_ade p) v (tp_mups p) (tp_mus p) (tp_mbs p) (tp_mit p) (tp_pa p) (tp_odcid p) (tp_iscid p) (tp_rscid p) (tp_srt p) (tp_acil p) (tp_mdfs p) (tp_rsa p) (tp_minad p) (tp_override p) (tp_amit p).
 Definition set_mups v (p : tparams) : tparams :=
-  mkTP (tp_imsd_bl p) (tp_imsd_br p) (tp_imsd_uni p) (tp_imd p) (tp_mad p) (tp_ade p) (tp_dam p) v (tp_mus p) (tp_mbs p) (tp_mit p) (tp_pa p) (tp_odcid p) (tp_iscid p) (tp_rscid p) (tp_srt p) (tp_acil p) (tp_mdfs p) (tp_rsa p) (tp_minad p) (tp_override p).
+  mkTP (tp_imsd_bl p) (tp_imsd_br p) (tp_imsd_uni p) (tp_imd p) (tp_mad p) (tp_ade p) (tp_dam p) v (tp_mus p) (tp_mbs p) (tp_mit p) (tp_pa p) (tp_odcid p) (tp_iscid p) (tp_rscid p) (tp_srt p) (tp_acil p) (tp_mdfs p) (tp_rsa p) (tp_minad p) (tp_override p) (tp_amit p).
 Definition set_mus v (p : tparams) : tparams :=
-  mkTP (tp_imsd_bl p) (tp_imsd_br p) (tp_imsd_uni p) (tp_imd p) (tp_mad p) (tp_ade p) (tp_dam p) (tp_mups p) v (tp_mbs p) (tp_mit p) (tp_pa p) (tp_odcid p) (tp_iscid p) (tp_rscid p) (tp_srt p) (tp_acil p) (tp_mdfs p) (tp_rsa p) (tp_minad p) (tp_override p).
+  mkTP (tp_imsd_bl p) (tp_imsd_br p) (tp_imsd_uni p) (tp_imd p) (tp_mad p) (tp_ade p) (tp_dam p) (tp_mups p) v (tp_mbs p) (tp_mit p) (tp_pa p) (tp_odcid p) (tp_iscid p) (tp_rscid p) (tp_srt p) (tp_acil p) (tp_mdfs p) (tp_rsa p) (tp_minad p) (tp_override p) (tp_amit p).
 Definition set_mbs v (p : tparams) : tparams :=
-  mkTP (tp_imsd_bl p) (tp_imsd_br p) (tp_imsd_uni p) (tp_imd p) (tp_mad p) (tp_ade p) (tp_dam p) (tp_mups p) (tp_mus p) v (tp_mit p) (tp_pa p) (tp_odcid p) (tp_iscid p) (tp_rscid p) (tp_srt p) (tp_acil p) (tp_mdfs p) (tp_rsa p) (tp_minad p) (tp_override p).
+  mkTP (tp_imsd_bl p) (tp_imsd_br p) (tp_imsd_uni p) (tp_imd p) (tp_mad p) (tp_ade p) (tp_dam p) (tp_mups p) (tp_mus p) v (tp_mit p) (tp_pa p) (tp_odcid p) (tp_iscid p) (tp_rscid p) (tp_srt p) (tp_acil p) (tp_mdfs p) (tp_rsa p) (tp_minad p) (tp_override p) (tp_amit p).
 Definition set_mit v (p : tparams) : tparams :=
-  mkTP (tp_imsd_bl p) (tp_imsd_br p) (tp_imsd_uni p) (tp_imd p) (tp_mad p) (tp_ade p) (tp_dam p) (tp_mups p) (tp_mus p) (tp_mbs p) v (tp_pa p) (tp_odcid p) (tp_iscid p) (tp_rscid p) (tp_srt p) (tp_acil p) (tp_mdfs p) (tp_rsa p) (tp_minad p) (tp_override p).
+  mkTP (tp_imsd_bl p) (tp_imsd_br p) (tp_imsd_uni p) (tp_imd p) (tp_mad p) (tp_ade p) (tp_dam p) (tp_mups p) (tp_mus p) (tp_mbs p) v (tp_pa p) (tp_odcid p) (tp_iscid p) (tp_rscid p) (tp_srt p) (tp_acil p) (tp_mdfs p) (tp_rsa p) (tp_minad p) (tp_override p) (tp_amit p).
 Definition set_pa v (p : tparams) : tparams :=
-  mkTP (tp_imsd_bl p) (tp_imsd_br p) (tp_imsd_uni p) (tp_imd p) (tp_mad p) (tp_ade p) (tp_dam p) (tp_mups p) (tp_mus p) (tp_mbs p) (tp_mit p) v (tp_odcid p) (tp_iscid p) (tp_rscid p) (tp_srt p) (tp_acil p) (tp_mdfs p) (tp_rsa p) (tp_minad p) (tp_override p).
+  mkTP (tp_imsd_bl p) (tp_imsd_br p) (tp_imsd_uni p) (tp_imd p) (tp_mad p) (tp_ade p) (tp_dam p) (tp_mups p) (tp_mus p) (tp_mbs p) (tp_mit p) v (tp_odcid p) (tp_iscid p) (tp_rscid p) (tp_srt p) (tp_acil p) (tp_mdfs p) (tp_rsa p) (tp_minad p) (tp_override p) (tp_amit p).
 Definition set_odcid v (p : tparams) : tparams :=
-  mkTP (tp_imsd_bl p) (tp_imsd_br p) (tp_imsd_uni p) (tp_imd p) (tp_mad p) (tp_ade p) (tp_dam p) (tp_mups p) (tp_mus p) (tp_mbs p) (tp_mit p) (tp_pa p) v (tp_iscid p) (tp_rscid p) (tp_srt p) (tp_acil p) (tp_mdfs p) (tp_rsa p) (tp_minad p) (tp_override p).
+  mkTP (tp_imsd_bl p) (tp_imsd_br p) (tp_imsd_uni p) (tp_imd p) (tp_mad p) (tp_ade p) (tp_dam p) (tp_mups p) (tp_mus p) (tp_mbs p) (tp_mit p) (tp_pa p) v (tp_iscid p) (tp_rscid p) (tp_srt p) (tp_acil p) (tp_mdfs p) (tp_rsa p) (tp_minad p) (tp_override p) (tp_amit p).
 Definition set_iscid v (p : tparams) : tparams :=
-  mkTP (tp_imsd_bl p) (tp_imsd_br p) (tp_imsd_uni p) (tp_imd p) (tp_mad p) (tp_ade p) (tp_dam p) (tp_mups p) (tp_mus p) (tp_mbs p) (tp_mit p) (tp_pa p) (tp_odcid p) v (tp_rscid p) (tp_srt p) (tp_acil p) (tp_mdfs p) (tp_rsa p) (tp_minad p) (tp_override p).
+  mkTP (tp_imsd_bl p) (tp_imsd_br p) (tp_imsd_uni p) (tp_imd p) (tp_mad p) (tp_ade p) (tp_dam p) (tp_mups p) (tp_mus p) (tp_mbs p) (tp_mit p) (tp_pa p) (tp_odcid p) v (tp_rscid p) (tp_srt p) (tp_acil p) (tp_mdfs p) (tp_rsa p) (tp_minad p) (tp_override p) (tp_amit p).
 Definition set_rscid v (p : tparams) : tparams :=
-  mkTP (tp_imsd_bl p) (tp_imsd_br p) (tp_imsd_uni p) (tp_imd p) (tp_mad p) (tp_ade p) (tp_dam p) (tp_mups p) (tp_mus p) (tp_mbs p) (tp_mit p) (tp_pa p) (tp_odcid p) (tp_iscid p) v (tp_srt p) (tp_acil p) (tp_mdfs p) (tp_rsa p) (tp_minad p) (tp_override p).
+  mkTP (tp_imsd_bl p) (tp_imsd_br p) (tp_imsd_uni p) (tp_imd p) (tp_mad p) (tp_ade p) (tp_dam p) (tp_mups p) (tp_mus p) (tp_mbs p) (tp_mit p) (tp_pa p) (tp_odcid p) (tp_iscid p) v (tp_srt p) (tp_acil p) (tp_mdfs p) (tp_rsa p) (tp_minad p) (tp_override p) (tp_amit p).
 Definition set_srt v (p : tparams) : tparams :=
-  mkTP (tp_imsd_bl p) (tp_imsd_br p) (tp_imsd_uni p) (tp_imd p) (tp_mad p) (tp_ade p) (tp_dam p) (tp_mups p) (tp_mus p) (tp_mbs p) (tp_mit p) (tp_pa p) (tp_odcid p) (tp_iscid p) (tp_rscid p) v (tp_acil p) (tp_mdfs p) (tp_rsa p) (tp_minad p) (tp_override p).
+  mkTP (tp_imsd_bl p) (tp_imsd_br p) (tp_imsd_uni p) (tp_imd p) (tp_mad p) (tp_ade p) (tp_dam p) (tp_mups p) (tp_mus p) (tp_mbs p) (tp_mit p) (tp_pa p) (tp_odcid p) (tp_iscid p) (tp_rscid p) v (tp_acil p) (tp_mdfs p) (tp_rsa p) (tp_minad p) (tp_override p) (tp_amit p).
 Definition set_acil v (p : tparams) : tparams :=
-  mkTP (tp_imsd_bl p) (tp_imsd_br p) (tp_imsd_uni p) (tp_imd p) (tp_mad p) (tp_ade p) (tp_dam p) (tp_mups p) (tp_mus p) (tp_mbs p) (tp_mit p) (tp_pa p) (tp_odcid p) (tp_iscid p) (tp_rscid p) (tp_srt p) v (tp_mdfs p) (tp_rsa p) (tp_minad p) (tp_override p).
+  mkTP (tp_imsd_bl p) (tp_imsd_br p) (tp_imsd_uni p) (tp_imd p) (tp_mad p) (tp_ade p) (tp_dam p) (tp_mups p) (tp_mus p) (tp_mbs p) (tp_mit p) (tp_pa p) (tp_odcid p) (tp_iscid p) (tp_rscid p) (tp_srt p) v (tp_mdfs p) (tp_rsa p) (tp_minad p) (tp_override p) (tp_amit p).
 Definition set_mdfs v (p : tparams) : tparams :=
-  mkTP (tp_imsd_bl p) (tp_imsd_br p) (tp_imsd_uni p) (tp_imd p) (tp_mad p) (tp_ade p) (tp_dam p) (tp_mups p) (tp_mus p) (tp_mbs p) (tp_mit p) (tp_pa p) (tp_odcid p) (tp_iscid p) (tp_rscid p) (tp_srt p) (tp_acil p) v (tp_rsa p) (tp_minad p) (tp_override p).
+  mkTP (tp_imsd_bl p) (tp_imsd_br p) (tp_imsd_uni p) (tp_imd p) (tp_mad p) (tp_ade p) (tp_dam p) (tp_mups p) (tp_mus p) (tp_mbs p) (tp_mit p) (tp_pa p) (tp_odcid p) (tp_iscid p) (tp_rscid p) (tp_srt p) (tp_acil p) v (tp_rsa p) (tp_minad p) (tp_override p) (tp_amit p).
 Definition set_rsa v (p : tparams) : tparams :=
-  mkTP (tp_imsd_bl p) (tp_imsd_br p) (tp_imsd_uni p) (tp_imd p) (tp_mad p) (tp_ade p) (tp_dam p) (tp_mups p) (tp_mus p) (tp_mbs p) (tp_mit p) (tp_pa p) (tp_odcid p) (tp_iscid p) (tp_rscid p) (tp_srt p) (tp_acil p) (tp_mdfs p) v (tp_minad p) (tp_override p).
+  mkTP (tp_imsd_bl p) (tp_imsd_br p) (tp_imsd_uni p) (tp_imd p) (tp_mad p) (tp_ade p) (tp_dam p) (tp_mups p) (tp_mus p) (tp_mbs p) (tp_mit p) (tp_pa p) (tp_odcid p) (tp_iscid p) (tp_rscid p) (tp_srt p) (tp_acil p) (tp_mdfs p) v (tp_minad p) (tp_override p) (tp_amit p).
 Definition set_minad v (p : tparams) : tparams :=
-  mkTP (tp_imsd_bl p) (tp_imsd_br p) (tp_imsd_uni p) (tp_imd p) (tp_mad p) (tp_ade p) (tp_dam p) (tp_mups p) (tp_mus p) (tp_mbs p) (tp_mit p) (tp_pa p) (tp_odcid p) (tp_iscid p) (tp_rscid p) (tp_srt p) (tp_acil p) (tp_mdfs p) (tp_rsa p) v (tp_override p).
+  mkTP (tp_imsd_bl p) (tp_imsd_br p) (tp_imsd_uni p) (tp_imd p) (tp_mad p) (tp_ade p) (tp_dam p) (tp_mups p) (tp_mus p) (tp_mbs p) (tp_mit p) (tp_pa p) (tp_odcid p) (tp_iscid p) (tp_rscid p) (tp_srt p) (tp_acil p) (tp_mdfs p) (tp_rsa p) v (tp_override p) (tp_amit p).
 Definition set_override v (p : tparams) : tparams :=
-  mkTP (tp_imsd_bl p) (tp_imsd_br p) (tp_imsd_uni p) (tp_imd p) (tp_mad p) (tp_ade p) (tp_dam p) (tp_mups p) (tp_mus p) (tp_mbs p) (tp_mit p) (tp_pa p) (tp_odcid p) (tp_iscid p) (tp_rscid p) (tp_srt p) (tp_acil p) (tp_mdfs p) (tp_rsa p) (tp_minad p) v.
+  mkTP (tp_imsd_bl p) (tp_imsd_br p) (tp_imsd_uni p) (tp_imd p) (tp_mad p) (tp_ade p) (tp_dam p) (tp_mups p) (tp_mus p) (tp_mbs p) (tp_mit p) (tp_pa p) (tp_odcid p) (tp_iscid p) (tp_rscid p) (tp_srt p) (tp_acil p) (tp_mdfs p) (tp_rsa p) (tp_minad p) v (tp_amit p).
+Definition set_amit v (p : tparams) : tparams :=
+  mkTP (tp_imsd_bl p) (tp_imsd_br p) (tp_imsd_uni p) (tp_imd p) (tp_mad p) (tp_ade p) (tp_dam p) (tp_mups p) (tp_mus p) (tp_mbs p) (tp_mit p) (tp_pa p) (tp_odcid p) (tp_iscid p) (tp_rscid p) (tp_srt p) (tp_acil p) (tp_mdfs p) (tp_rsa p) (tp_minad p) (tp_override p) v.
 
 (** the zero value of the Go struct *)
 Definition tp_zero : tparams :=
-  mkTP 0 0 0 0 0 0 false 0 0 0 0 None [] [] None None 0 0 false None None.
+  mkTP 0 0 0 0 0 0 false 0 0 0 0 None [] [] None None 0 0 false None None 0.
 
 (** the four defaults [unmarshal] writes before the loop *)
 Definition tp_init : tparams :=
@@ -196,8 +199,9 @@ Definition read_numeric (b : list Z) (id plen : Z) (p : tparams) : res tparams :
     else if id =? TP_ID_mus then
       if TP_MaxStreamCount <? val then Err E_TP_STREAMS_UNI 0 else Ok (set_mus val p)
     else if id =? TP_ID_mit then
-      if val =? 0 then Ok (set_mit 0 p)
-      else Ok (set_mit (Z.max TP_MinRemoteIdleTimeout (sat_duration val TP_Millisecond)) p)
+      if val =? 0 then Ok (set_amit 0 (set_mit 0 p))
+      else Ok (set_amit (sat_duration val TP_Millisecond)
+                 (set_mit (Z.max TP_MinRemoteIdleTimeout (sat_duration val TP_Millisecond)) p))
     else if id =? TP_ID_mups then
       if val <? 1200 then Err E_TP_MUPS 0 else Ok (set_mups val p)
     else if id =? TP_ID_ade then
@@ -459,4 +463,4 @@ Definition tp_eqb (a b : tparams) : bool :=
   zeqb_list (tp_iscid a) (tp_iscid b) && opt_eqb zeqb_list (tp_rscid a) (tp_rscid b) &&
   opt_eqb zeqb_list (tp_srt a) (tp_srt b) && (tp_acil a =? tp_acil b) && (tp_mdfs a =? tp_mdfs b) &&
   Bool.eqb (tp_rsa a) (tp_rsa b) && opt_eqb Z.eqb (tp_minad a) (tp_minad b) &&
-  opt_eqb zeqb_list (tp_override a) (tp_override b).
+  opt_eqb zeqb_list (tp_override a) (tp_override b) && (tp_amit a =? tp_amit b).
